@@ -22,6 +22,8 @@ Init == l = 1 /\ pc = "idle" /\ seq = 0 /\ alone = <<>>
 Fails(ev) ==
   CASE ev.e \in {"Alone", "Reset"} -> {}
     [] ev.e = "Race" -> {<<"C17", "data race reported between concurrent calls">>}
+    \* the process died while the threads were running although the same calls complete when run by one thread
+    [] ev.e = "Crash" -> {<<"C17", "concurrent calls crashed the process; the same calls run alone do not">>}
     [] ev.e = "Begin" -> (IF pc = "idle" /\ ev.seq = seq + 1 THEN {} ELSE {<<"C17", "H:thread log out of order">>})
     [] ev.e = "End" ->
          (IF pc = "busy" /\ ev.seq = seq + 1 THEN {} ELSE {<<"C17", "H:thread log out of order">>})
